@@ -146,7 +146,7 @@ Example c04_nonvacuous : forall hmac,
   let r := run_session hmac sv_fixed w_env input in
   r_out r = OContinue err_eof /\
   r_ev r = [EvConnect 1 [108; 105; 118; 101];
-            EvNewPub [108; 105; 118; 101] [115] [] [47; 115] true;
+            EvNewPub RPub [108; 105; 118; 101] [115] [] [47; 115] true;
             EvAv (mk_rmsg (mk_hdr 6 3 8 1 0) [175; 1; 2] 0)] /\
   lenN (concat (r_wr r)) = 386 /\
   handle_tcp_connect hmac sv_fixed w_env input = Some (r_ev r ++ [EvDelPub]).
